@@ -47,30 +47,66 @@ def _kwargs_get(node, kw, key):
     return s in (f"{kw}.get('{key}', None)", f"{kw}.get('{key}')", f"{kw}['{key}']")
 
 
+def _literalise(ctx, node, fi, env):
+    """Names of single-assignment locals and of module / class constants that denote a collection of strings are replaced by
+    the literal collection (so that membership tests become comparisons with constants)."""
+    node = G.substitute(node, env)
+
+    class T(ast.NodeTransformer):
+        def visit_Name(self, n):
+            return self._try(n)
+
+        def visit_Attribute(self, n):
+            r = self._try(n)
+            return r if r is not n else self.generic_visit(n)
+
+        def _try(self, n):
+            if not isinstance(getattr(n, 'ctx', None), ast.Load):
+                return n
+            base = n
+            while isinstance(base, ast.Attribute):
+                base = base.value
+            if isinstance(base, ast.Name) and base.id in fi.all_params:
+                return n
+            ok_, v = ctx.ce.try_eval(n, fi.module, fi.cls, {})
+            if ok_ and isinstance(v, (list, tuple, set, frozenset)) and v and all(isinstance(x, str) for x in v):
+                return ast.copy_location(ast.Tuple(elts=[ast.Constant(value=x) for x in sorted(v)], ctx=ast.Load()), n)
+            return n
+    return T().visit(node)
+
+
 def r1_selected_set(ctx):
     po = ctx.prog.func(f'{N.GENERIC}.Generic.parse_options_to_ExportOptions')
     kw = po.node.args.kwarg.arg if po.node.args.kwarg else None
     if kw is None:
         raise AnalysisError(f'{po.loc}: parse_options_to_ExportOptions no longer takes **kwargs')
-    valid = ctx.prog.func(f'{N.MAPPER}.valid')
-    stores = [n for n in walk_local(po.node) if isinstance(n, ast.Assign) and len(n.targets) == 1
-              and isinstance(n.targets[0], ast.Attribute) and n.targets[0].attr == 'token_categories']
+    # (a) the selected set: on every path, options.token_categories = valid(include=<include option>, exclude=<exclude option>)
+    stores = {}
+    for sp in symex.func_sym_paths(po):
+        for e in sp.events:
+            if e.kind == 'store' and isinstance(e.target, ast.Attribute) and e.target.attr == 'token_categories':
+                stores.setdefault(id(e.node), (e.node, []))[1].append(e.expr)
     ctx.expect_count('R1', 'assignment of options.token_categories', len(stores), 1)
-    for st in stores:
+    for st, values in stores.values():
         at = f'{po.module.relpath}:{st.lineno}'
-        call = st.value
-        r = F.callee(ctx, call, po) if isinstance(call, ast.Call) else None
-        ok = False
-        if r and r[0] == 'def' and r[1].name == 'valid' and r[1].cls is not None and r[1].cls.qualname in (N.MAPPER, N.TOKCAT):
-            b = F.bind_args(call, r[1], True)
-            ok = b.get('include') is not None and b.get('exclude') is not None \
-                and _kwargs_get(b['include'], kw, 'include') and _kwargs_get(b['exclude'], kw, 'exclude')
+        ok = True
+        shown = ''
+        for call in values:
+            shown = src(call)[:120]
+            r = F.callee(ctx, call, po) if isinstance(call, ast.Call) else None
+            good = False
+            if r and r[0] == 'def' and r[1].name == 'valid' and r[1].cls is not None and r[1].cls.qualname in (N.MAPPER, N.TOKCAT):
+                b = F.bind_args(call, r[1], True)
+                good = b.get('include') is not None and b.get('exclude') is not None \
+                    and _kwargs_get(b['include'], kw, 'include') and _kwargs_get(b['exclude'], kw, 'exclude')
+            ok = ok and good
         ctx.check(ok, 'R1', at, po.qualname, 'selected-set-origin',
                   'token_categories = valid(include=<include option>, exclude=<exclude option>)',
-                  f'token_categories is `{src(call)[:120]}`: not valid(include=include, exclude=exclude) with unswapped origins')
-    # every other keyword: copied to the option of the same name iff it is not in the skip list and its value is not None
+                  f'token_categories is `{shown}`: not valid(include=include, exclude=exclude) with unswapped origins')
+    # (b) every other keyword: copied to the option of the same name iff it is not in the skip list and its value is not None
     sets = [n for n in walk_local(po.node) if isinstance(n, ast.Call) and F.is_name(n.func, 'setattr')]
     ctx.expect_count('R1', 'setattr(options, key, value) site', len(sets), 1)
+    env = G.single_assignments(po.node)
     for sc in sets:
         at = f'{po.module.relpath}:{sc.lineno}'
         if not (len(sc.args) == 3 and F.is_name(sc.args[0], 'options') and isinstance(sc.args[1], ast.Name) and isinstance(sc.args[2], ast.Name)):
@@ -79,7 +115,7 @@ def r1_selected_set(ctx):
         kv, vv = sc.args[1].id, sc.args[2].id
         loop = None
         for n in walk_local(po.node):
-            if isinstance(n, ast.For) and sc in list(ast.walk(n)) and isinstance(n.target, ast.Tuple) and len(n.target.elts) == 2 \
+            if isinstance(n, ast.For) and any(x is sc for x in ast.walk(n)) and isinstance(n.target, ast.Tuple) and len(n.target.elts) == 2 \
                     and [getattr(e, 'id', None) for e in n.target.elts] == [kv, vv]:
                 loop = n
         if loop is None:
@@ -87,7 +123,6 @@ def r1_selected_set(ctx):
             continue
         conds = []
         it = loop.iter
-        env = G.single_assignments(po.node)
         if isinstance(it, ast.Call) and isinstance(it.func, ast.Attribute) and it.func.attr == 'items':
             base = G.substitute(it.func.value, env)
             if isinstance(base, ast.DictComp) and len(base.generators) == 1 and isinstance(base.generators[0].target, ast.Tuple) \
@@ -106,39 +141,37 @@ def r1_selected_set(ctx):
             continue
         # path condition inside the loop body
         reach = []
-        for sp in symex.sym_paths(loop.body):
-            if any(e.kind == 'expr' and e.node is not None and isinstance(e.node, ast.Expr) and e.node.value is sc for e in sp.events):
-                vals = [n_ if t else ast.UnaryOp(op=ast.Not(), operand=n_) for n_, t in sp.path.conds()]
-                # only the conditions evaluated before the setattr matter: all of them on this path precede it or follow it; keep all
-                reach.append(G.conj([G._formula(v) for v in vals]) if vals else ('const', True))
-        fm = G.conj([G._formula(c) for c in conds] + [G.disj(reach)])
+        for sp in symex.sym_paths(loop.body, fi=po):
+            hit = [i for i, e in enumerate(sp.events) if e.kind == 'expr' and isinstance(e.node, ast.Expr) and e.node.value is sc]
+            if hit:
+                before = [(e.expr, e.target) for e in sp.events[:hit[0]] if e.kind == 'cond']
+                reach.append(G.conj([G._formula(_literalise(ctx, c if t else ast.UnaryOp(op=ast.Not(), operand=c), po, env))
+                                     for c, t in before]))
+        fm = G.conj([G._formula(_literalise(ctx, c, po, env)) for c in conds] + [G.disj(reach)])
         naming = {}
-        skip = None
+        skipped = set()
         for a in G.atoms_of(fm):
             if a == f'{vv} is None':
                 naming[a] = 'none'
-            elif a.startswith(f'{kv} in '):
-                try:
-                    node = ast.parse(a[len(f'{kv} in '):], mode='eval').body
-                    ok_, v = ctx.ce.try_eval(G.substitute(node, env), po.module)
-                    if ok_ and {'include', 'exclude', 'token_categories'} <= set(v):
-                        naming[a] = 'skip'
-                        skip = set(v)
-                except SyntaxError:
-                    pass
-        eq, cex, unknown = G.compare(fm, lambda v: (not v.get('skip', False)) and (not v.get('none', False)), naming)
-        ok = eq and not unknown and 'skip' in naming.values() and 'none' in naming.values()
+                continue
+            for k_ in ('include', 'exclude', 'token_categories'):
+                if a in (f"'{k_}' == {kv}", f"{kv} == '{k_}'"):
+                    naming[a] = k_
+                    skipped.add(k_)
+        eq, cex, unknown = G.compare(
+            fm, lambda v: not any(v.get(k_, False) for k_ in ('include', 'exclude', 'token_categories')) and not v.get('none', False), naming,
+            constraints=lambda v: sum(1 for k_ in ('include', 'exclude', 'token_categories') if v.get(k_, False)) <= 1)
+        ok = eq and not unknown and skipped == {'include', 'exclude', 'token_categories'} and 'none' in naming.values()
         why = f'a keyword is copied under `{G.show(fm)[:160]}`'
         if unknown:
             why += (f': the condition `{unknown[0]}` is not `value is not None` - an option passed explicitly with a falsy value '
                     f'(spine_ids=[], spine_types=[], from_measure=0, show_measure_numbers=False) is silently ignored, so an empty '
                     f'selection exports everything')
-        if 'skip' not in naming.values():
-            why += '; include / exclude / token_categories are not skipped (the computed selection can be overwritten)'
+        if skipped != {'include', 'exclude', 'token_categories'}:
+            why += '; include / exclude / token_categories are not all skipped (the computed selection can be overwritten)'
         ctx.check(ok, 'R1', at, po.qualname, 'option-copy-condition',
                   'a keyword is copied to the option of the same name iff it is not include/exclude/token_categories and its value is not None',
                   why)
-    rets = symex.returns(po)
     # starts from defaults
     okd = any(isinstance(n, ast.Assign) and F.is_name(n.targets[0], 'options') and src(n.value) == 'ExportOptions.default()'
               for n in walk_local(po.node))
@@ -210,65 +243,74 @@ def r2_closed_sets(ctx):
     ctx.expect_count('R2', 'ExportOptions constructions', n, 3)
 
 
-def _is_filter_pred(ctx, test, var, fn_names):
-    """fn is None or fn(var.category)"""
-    fm = G._formula(test)
-    ats = G.atoms_of(fm)
-    for fn in fn_names:
-        a_none = f'{fn} is None'
-        a_call = f'{fn}({var}.category)'
-        if set(ats) == {a_none, a_call}:
-            ok = all(G.evaluate(fm, {a_none: x, a_call: y}) == (x or y) for x in (False, True) for y in (False, True))
-            if ok:
-                return True
-    return False
+def filtered_element_wise(ctx, rule, f, lst, construct, what):
+    """Every read of `self.<lst>` that reaches the text returned by `f` passes, element by element, exactly the predicate
+    `filter_categories is None or filter_categories(element.category)` (decided per path, under the path condition)."""
+    from .. import seqs
+    kw = f.node.args.kwarg.arg if f.node.args.kwarg else None
+    if kw is None:
+        raise AnalysisError(f'{f.loc}: {f.qualname} no longer takes **kwargs')
+    fn = f"{kw}.get('filter_categories')"
+    a_none, a_call = f'{fn} is None', f'{fn}({seqs.ELT}.category)'
+    pred = ('or', [('atom', a_none), ('atom', a_call)])
+    n_reads = 0
+    bad = []
+    for sp in symex.func_sym_paths(f):
+        if sp.end != 'return' or sp.value is None:
+            continue
+        if any('@iter' in n.id for n in ast.walk(sp.value) if isinstance(n, ast.Name)):
+            raise AnalysisError(f'{f.loc}: {f.qualname} builds its result in a loop the element-wise analysis does not follow')
+        pm = seqs.parent_map(sp.value)
+        pc = sp.condition()
+        for occ in seqs.reads_of(sp.value, f'self.{lst}'):
+            n_reads += 1
+            kind, fm, elt = seqs.consumer_filter(occ, pm)
+            if kind == 'slice':
+                bad.append(f'`{src(elt)[:60]}` takes a part of self.{lst} (not element by element)')
+                continue
+            sound, complete, extra = seqs.implies_under(pc, fm, pred)
+            extra = [a for a in extra if not a.startswith(f'{seqs.ELT}.category == ') and ' == ' + f'{seqs.ELT}.category' not in a]
+            if not sound:
+                bad.append(f'an element of self.{lst} passes `{G.show(fm)[:80]}` although the predicate rejects its category '
+                           f'(path: {G.show(pc)[:80]})')
+            elif not complete and (extra or not _only_category_tests(fm, pred)):
+                bad.append(f'an element of self.{lst} that the predicate accepts is dropped by `{G.show(fm)[:80]}` (path: {G.show(pc)[:80]})')
+    if n_reads == 0:
+        bad.append(f'self.{lst} never reaches the exported text')
+    ctx.check(not bad, rule, f.loc, f.qualname, construct, what, '; '.join(sorted(set(bad))[:3]))
+    ctx.count(f'{rule}.element-wise reads of {lst}', n_reads)
+
+
+def _only_category_tests(fm, pred):
+    """fm is pred plus tests of the element's category against constants (a per-category selection of an already filtered list
+    is decided by the composition rules of C01)."""
+    from .. import seqs
+    known = set(G.atoms_of(pred))
+    return all(a in known or a.startswith(f'{seqs.ELT}.category == ') or a.endswith(f' == {seqs.ELT}.category') for a in G.atoms_of(fm))
 
 
 def r5_subtoken_filter(ctx):
     nrt = ctx.prog.func(f'{N.TOKENS}.NoteRestToken.export')
-    kw = nrt.node.args.kwarg.arg
-    fn_names = [n.targets[0].id for n in walk_local(nrt.node) if isinstance(n, ast.Assign) and isinstance(n.targets[0], ast.Name)
-                and src(n.value) in (f"{kw}.get('filter_categories')", f"{kw}.get('filter_categories', None)")]
-    ctx.expect_count('R5', 'filter predicate lookup in NoteRestToken.export', len(fn_names), 1)
     for lst in ('pitch_duration_subtokens', 'decoration_subtokens'):
-        comps = [n for n in walk_local(nrt.node) if isinstance(n, (ast.ListComp, ast.GeneratorExp))
-                 and len(n.generators) == 1 and src(n.generators[0].iter) == f'self.{lst}']
-        reads = [n for n in walk_local(nrt.node) if isinstance(n, ast.Attribute) and n.attr == lst and src(n.value) == 'self']
-        at = nrt.loc
-        ok = len(comps) >= 1 and len(reads) == len(comps)
-        for c in comps:
-            g = c.generators[0]
-            at = f'{nrt.module.relpath}:{c.lineno}'
-            ok = ok and isinstance(g.target, ast.Name) and F.is_name(c.elt, g.target.id) and len(g.ifs) == 1 \
-                and _is_filter_pred(ctx, g.ifs[0], g.target.id, fn_names)
-        ctx.check(ok, 'R5', at, nrt.qualname, f'subtoken-filter:{lst}',
-                  f'every element of {lst} is kept iff no predicate is given or predicate(category) holds (whole list, no slice)',
-                  f'{lst} is not filtered element by element with `fn is None or fn(s.category)`')
+        filtered_element_wise(ctx, 'R5', nrt, lst, f'subtoken-filter:{lst}',
+                              f'every element of {lst} is kept iff no predicate is given or predicate(category) holds (whole list, no slice)')
     ct = ctx.prog.func(f'{N.TOKENS}.CompoundToken.export')
-    kw2 = ct.node.args.kwarg.arg
-    fn2 = [n.targets[0].id for n in walk_local(ct.node) if isinstance(n, ast.Assign) and isinstance(n.targets[0], ast.Name)
-           and src(n.value) in (f"{kw2}.get('filter_categories', None)", f"{kw2}.get('filter_categories')")]
-    loops = [n for n in walk_local(ct.node) if isinstance(n, ast.For) and src(n.iter) == 'self.subtokens']
-    ok = len(loops) == 1 and len(fn2) == 1
-    if ok:
-        lp = loops[0]
-        ok = len(lp.body) == 1 and isinstance(lp.body[0], ast.If) and _is_filter_pred(ctx, lp.body[0].test, lp.target.id, fn2) \
-            and not lp.body[0].orelse
-    ctx.check(ok, 'R5', ct.loc, ct.qualname, 'subtoken-filter:compound',
-              'CompoundToken.export keeps a sub-token iff no predicate is given or predicate(category) holds')
+    filtered_element_wise(ctx, 'R5', ct, 'subtokens', 'subtoken-filter:compound',
+                          'CompoundToken.export keeps a sub-token iff no predicate is given or predicate(category) holds')
     # every tokenizer passes membership in its own token_categories
     tk = ctx.prog.module(N.TOKENIZERS)
     n = 0
     for f in ctx.prog.all_functions():
         if f.module is not tk or f.name != 'tokenize':
             continue
+        env = G.single_assignments(f.node)
         for c in walk_local(f.node):
             if isinstance(c, ast.Call) and isinstance(c.func, ast.Attribute) and c.func.attr == 'export':
                 kws = {k.arg: k.value for k in c.keywords}
                 fc = kws.get('filter_categories')
                 n += 1
-                ok = isinstance(fc, ast.Lambda) and len(fc.args.args) == 1 \
-                    and src(fc.body) == f'{fc.args.args[0].arg} in self.token_categories'
+                cb = F.callable_body(ctx, G.substitute(fc, env), f) if fc is not None else None
+                ok = cb is not None and len(cb[0]) == 1 and src(cb[1]) == f'{cb[0][0]} in self.token_categories'
                 ctx.check(ok, 'R5', f'{f.module.relpath}:{c.lineno}', f.qualname, 'tokenizer-predicate',
                           'the tokenizer passes `category in self.token_categories` as the sub-token predicate',
                           f'the tokenizer passes `{src(fc)[:80] if fc is not None else None}` as the predicate')
